@@ -16,9 +16,14 @@
 (*   DevFetchDefaultZero   coordinator: OffsetFetch forwards the store's 0 for a never-committed partition *)
 (*   DevCommitUnchecked    coordinator: OffsetCommit writes before checking member/generation              *)
 (*   DevToolWrites         mcp: fetch_offsets initialises missing offsets (a tool that writes)             *)
+(*   DevToolPersistsDefault mcp: describe_configs (FetchTopicConfig) stores the derived default config record  *)
+(*   DevToolGroupDefaults  mcp: describe_group (FetchConsumerGroup, mem) fills zero timeouts of the STORED group *)
 (*   DevToolReaps          mcp: list_groups deletes stored groups that are dead and memberless             *)
 (*   DevEscapeFastPath     mem: the consumer key escapes a name only when it contains ':', so the text     *)
 (*                         "%3A" in one name collides with ':' in another ("g%3At" vs "g:t")               *)
+(*   DevStaleNextOffset    etcd: the next offset written by UpdateOffsets is remembered outside etcd and      *)
+(*                         survives DeleteTopic (delete + re-create of a name reads the old topic's offset)   *)
+(*   DevGrowSameCountOk    mem: CreatePartitions with exactly the current count succeeds as a no-op           *)
 (*   DevEtcdDeletePrefix   etcd: DeleteTopic(t) deletes the produce offsets under the key prefix of t      *)
 (*                         without the closing '/', i.e. also those of every topic whose name starts with t *)
 (* Topic names are validated by CreateTopic (metadata.ValidTopicName: [a-zA-Z0-9._-]); names containing    *)
@@ -28,7 +33,8 @@ CONSTANTS Topics, Groups, ColonNames, SlashNames, PercentNames, DeadVariants, Ma
           CfgVariants, ToolNames, ToolShapes, InitTopics, MaxOps,
           DevKeyAliasing, DevDeleteKeepsOffsets, DevCloneDropsTimeouts, DevEtcdListOmitsSlash,
           DevEtcdPartsOrder, DevFetchDefaultZero, DevCommitUnchecked, DevToolWrites,
-          DevToolReaps, DevEscapeFastPath, DevEtcdDeletePrefix
+          DevToolReaps, DevEscapeFastPath, DevEtcdDeletePrefix, DevStaleNextOffset, DevGrowSameCountOk,
+          DevToolPersistsDefault, DevToolGroupDefaults
 VARIABLES st,         \* [impl -> store record]
           committed,  \* ghost: [impl -> [triple -> last SUCCESSFUL coordinator commit]]
           last,       \* the last operation with both observation columns
@@ -72,7 +78,8 @@ KeyOf(i, g, t, p) == IF DevKeyAliasing /\ i = "mem" THEN <<g \o ":" \o t, "", p>
 DoDeleteTopic(i, s, t) ==
   IF PartsOf(s, t) = 0 THEN Res(s, Obs("unknown", 0))
   ELSE Res([s EXCEPT !.topics = Without(@, TopicIdx(s, t)),
-                     !.next = Drop(@, {k \in DOMAIN @ : k[1] = t \/ (DevEtcdDeletePrefix /\ i = "etcd" /\ <<t, k[1]>> \in PrefixPairs)}),
+                     !.next = IF DevStaleNextOffset /\ i = "etcd" THEN @ ELSE
+                              Drop(@, {k \in DOMAIN @ : k[1] = t \/ (DevEtcdDeletePrefix /\ i = "etcd" /\ <<t, k[1]>> \in PrefixPairs)}),
                      !.coff = IF DevDeleteKeepsOffsets /\ i = "mem" THEN @
                               ELSE Drop(@, {k \in DOMAIN @ : @[k].t = t})],
            Obs("ok", 0))
@@ -85,6 +92,7 @@ DoCreatePartitions(i, s, t, n) ==
        ELSE Res([s EXCEPT !.topics[TopicIdx(s, t)] = <<t, n>>], Obs("ok", 0))
   ELSE IF n <= 0 THEN Res(s, Obs("invalid", 0))
        ELSE IF cur = 0 THEN Res(s, Obs("unknown", 0))
+       ELSE IF n = cur /\ DevGrowSameCountOk /\ i = "mem" THEN Res(s, Obs("ok", 0))
        ELSE IF n <= cur THEN Res(s, Obs("invalid", 0))
        ELSE Res([s EXCEPT !.topics[TopicIdx(s, t)] = <<t, n>>], Obs("ok", 0))
 
@@ -131,7 +139,8 @@ FullRead(i, s) == [topics |-> s.topics,
                    groups |-> {<<g, GroupVal(s, g)[1], GroupVal(s, g)[2]>> : g \in Groups}]
 \* the projection compared around a tool call: FullRead plus the list operations and the topic configurations
 ToolProj(i, s) == [full |-> FullRead(i, s), olist |-> OffsetList(i, s), glist |-> GroupList(i, s),
-                   cfgs |-> {<<t, CfgVal(s, t).err, CfgVal(s, t).val>> : t \in Topics}]
+                   cfgs |-> {<<t, CfgVal(s, t).err, CfgVal(s, t).val>> : t \in Topics},
+                   cfgkeys |-> DOMAIN s.cfgs]      \* which topics have a stored config record (raw state, not a read result)
 DoFinal(i, s) == Res(s, Obs("ok", FullRead(i, s)))
 
 (* ---------------- the store-level step: one operation applied to both implementations ---------------------- *)
@@ -210,6 +219,13 @@ Tool(name, shape) ==
          ns == [i \in Impls |->
                   IF DevToolReaps /\ name = "list_groups"
                   THEN [st[i] EXCEPT !.groups = Drop(@, {x \in DOMAIN @ : @[x][1] \in DeadVariants})] ELSE
+                  IF DevToolGroupDefaults /\ name = "describe_group" /\ shape = "known" /\ i = "mem"
+                     /\ \E x \in DOMAIN st[i].groups : st[i].groups[x][1] \notin TimeoutVariants /\ st[i].groups[x][2]
+                  THEN LET x == CHOOSE x \in DOMAIN st[i].groups : st[i].groups[x][1] \notin TimeoutVariants /\ st[i].groups[x][2]
+                       IN [st[i] EXCEPT !.groups[x] = <<@[1], FALSE>>] ELSE
+                  IF DevToolPersistsDefault /\ name = "describe_configs" /\ shape = "known" /\ Len(st[i].topics) > 0
+                     /\ st[i].topics[1][1] \notin DOMAIN st[i].cfgs
+                  THEN [st[i] EXCEPT !.cfgs = Put(@, st[i].topics[1][1], 0)] ELSE
                   IF DevToolWrites /\ name = "fetch_offsets" /\ shape = "known" /\ Len(st[i].topics) > 0
                      /\ ~Lookup(i, st[i], g, st[i].topics[1][1], 0).set
                   THEN DoCommit(i, st[i], g, st[i].topics[1][1], 0, 0, "").s ELSE st[i]]
@@ -271,7 +287,7 @@ P40(i) == INSTANCE StoreProps WITH obsA <- 0, obsB <- 0,
 C40_Unchanged == last.kind = "tool" => \A i \in Impls : P40(i)!C40_Unchanged
 
 \* conformance-level facts
-SameState == DevKeyAliasing \/ DevDeleteKeepsOffsets \/ DevCloneDropsTimeouts \/ DevEscapeFastPath \/ DevEtcdDeletePrefix
+SameState == DevKeyAliasing \/ DevDeleteKeepsOffsets \/ DevCloneDropsTimeouts \/ DevEscapeFastPath \/ DevEtcdDeletePrefix \/ DevStaleNextOffset
              \/ st["mem"] = st["etcd"]
 
 View == <<st, committed, last, Len(hist)>>
